@@ -25,3 +25,6 @@ pub mod pipe;
 pub mod std_shim;
 #[cfg(feature = "threads")]
 pub mod sched;
+
+#[cfg(feature = "threads")]
+pub use shuttle;
